@@ -194,6 +194,20 @@ def check_cell(ctx, spec, only_decoder=None):
             if t < 0:
                 continue
             pats = patterns_upto(n, min(t, 4)) if n <= 32 or t <= 2 else patterns_upto(n, 1)
+            # weights above the enumeration cap: seeded patterns of every weight up to t (200 per weight; thorough 1000)
+            lo_w = (min(t, 4) if n <= 32 or t <= 2 else 1) + 1
+            if t >= lo_w:
+                extra_p = []
+                per_w = 1000 if ctx.tier == "thorough" else 200
+                for w in range(lo_w, t + 1):
+                    for _ in range(per_w):
+                        v = 0
+                        for pos in rng.choice(n, size=w, replace=False):
+                            v |= 1 << int(pos)
+                        extra_p.append(v)
+                heavy = np.asarray(extra_p, dtype=np.uint64)
+            else:
+                heavy = None
             if k <= 16:
                 ncw = 1 << k
                 if ncw * len(pats) <= bud:
@@ -212,6 +226,12 @@ def check_cell(ctx, spec, only_decoder=None):
                         errs = np.concatenate([errs, pats[rng.randint(0, len(pats), size=extra)]])
                     ctx.cls("cells_sampled")
                 run_words(ctx, dec, cell, spec, dname, msgs, errs, cbook, n, k, clause)
+                if heavy is not None:
+                    hb = max(50, min(len(heavy), bud // 2))
+                    hsel = heavy[rng.choice(len(heavy), size=hb, replace=False)] if hb < len(heavy) else heavy
+                    hm = rng.randint(0, ncw, size=len(hsel)).astype(np.uint64)
+                    run_words(ctx, dec, cell, spec, dname, hm, hsel, cbook, n, k, clause)
+                    ctx.cls("heavy_weight_patterns", len(hsel))
                 # other layouts on a subsample
                 sub = rng.choice(len(msgs), size=min(len(msgs), 60 if dname != "bm" else 24), replace=False)
                 run_words(ctx, dec, {**cell, "layout": "1d"}, spec, dname, msgs[sub], errs[sub], cbook, n, k, clause, "1d")
@@ -223,6 +243,8 @@ def check_cell(ctx, spec, only_decoder=None):
                 M[0] = False
                 cw_int = np.array([gf2.vec_mat(gf2.vec_to_int(r), rows) for r in M], dtype=np.uint64)
                 errs = pats[rng.randint(0, len(pats), size=m)] if len(pats) > 1 else np.zeros(m, dtype=np.uint64)
+                if heavy is not None:
+                    errs[m // 2:] = heavy[rng.randint(0, len(heavy), size=m - m // 2)]
                 _run_large(ctx, dec, cell, spec, dname, M, cw_int, errs, n, k, clause)
         # (b) return_errors consistency
         if dname in ("syndrome", "ml", "bm", "rm_majority") and k <= 16:
